@@ -98,7 +98,8 @@ theorem normalize_noFault (q : Query) : (normalize q).NoFault := by
     dsimp only
     split
     · have h2 := normOrderLoop_noFault
-        ⟨acc.select, acc.aggregate, acc.aggregateColnames, acc.selectColnames, []⟩ q.orderBy
+        ⟨acc.select, acc.aggregate, acc.aggregateColnames, acc.selectColnames, []⟩
+        (q.orderBy.filter fun ob => keepsOrderKey ob.1)
       split
       · trivial
       · rename_i x heq; rw [heq] at h2; exact h2
